@@ -5,16 +5,16 @@ C17 — executable model of the audio input buffering layers.
 Transcribed source (tree under test, after the `fix:` commit recorded in findings/C17.json):
 
 * `pyatv/support/buffer.py` `SemiSeekableBuffer`
-    __init__ :55-69   size :76-79 (`Buf.unread`)   remaining :81-88 (`Buf.remaining`)
-    protected_headroom setter :106-115 (`Buf.setProtected`)   add :117-124   get :126-151
-    seek :153-178   fits :180-186
+    __init__ :53-69   size :77-79 (`Buf.unread`)   remaining :82-88 (`Buf.remaining`)
+    protected_headroom setter :106-114 (`Buf.setProtected`)   add :116-123   get :125-150
+    seek :152-177   fits :179-185
 * `pyatv/protocols/raop/audio_source.py`
-    BufferedIOBaseWrapper.read :134-147 / .seek :149-153        (`World.read`, kind `bio`)
+    BufferedIOBaseWrapper.read :134-146 / .seek :148-152        (`World.read`, kind `bio`)
     StreamReaderWrapper.read :178-197 / .seek :199-205          (`World.read`, kind `srw`)
-    StreamableSourceWrapper.read :232-234 / .seek :236-240      (kind `ssw`: stacked on
-      StreamReaderWrapper exactly as BufferedIOBaseSource.open does; `IWorld`: stacked on
-      PatchedIceCastClient.read :484-497 / .seek :477-482, whose download step
-      `_download_stream` :529-547 is `IWorld.feed`)
+    StreamableSourceWrapper.read :229-231 / .seek :233-237      (kind `ssw`: stacked on
+      StreamReaderWrapper exactly as BufferedIOBaseSource.open does; `World.istep`: stacked on
+      PatchedIceCastClient.read :481-494 / .seek :474-479, whose download step
+      `_download_stream` :515-547 (one turn of its loop) is `World.feed`)
 
 Conventions.  Sizes are `Nat`; the Python code uses `int` and the two agree because the
 subtractions that could go negative (`buffer_size - len(buffer)`, `len(buffer) - position`)
